@@ -61,7 +61,8 @@ def resolve_shape(ctx, rule='A5'):
 
 def init_shape(ctx, rule='A5'):
     fn = ctx.fn(f'{SUP}:SupDSG.initialize_choices')
-    cfg = build_cfg(fn)
+    # checks moved into a void private helper are seen in place
+    cfg = build_cfg(inlined_view(ctx.prog, fn))
     sup = guards.call_nodes(cfg, 'initialize_choices', pred=lambda c: 'super()' in norm(c.func))
     if not sup:
         raise AnalysisError('SupDSG.initialize_choices: super call not found')
@@ -75,7 +76,8 @@ def init_shape(ctx, rule='A5'):
                f'the base initialisation runs only after the {nm}-mapping test (which raises)',
                short(ts[0].ast) if ts else 'test missing')
     # a choice is a duplicate when the *choice node* was mapped before - whatever object maps it
-    lps = [n for n in cfg.nodes if n.kind == 'for' and norm(n.ast.iter) == 'self._choice_mappings']
+    lps = [n for u in unit_functions(ctx.prog, fn) for n in build_cfg(u).nodes
+           if n.kind == 'for' and norm(n.ast.iter) == 'self._choice_mappings']
     if not lps:
         raise AnalysisError('initialize_choices: loop over the registered mappings not found')
     tg = lps[0].ast.target
@@ -115,57 +117,7 @@ def init_shape(ctx, rule='A5'):
            'a mapping for a choice node that is not in the supplementary graph is rejected', '')
 
 
-def option_provenance(ctx, rule='A6'):
-    # option mapping
-    fn = ctx.fn(f'{SUP}:SupSelChoiceOptionMapping.resolve')
-    cfg = build_cfg(fn)
-    applies = guards.call_nodes(cfg, 'get_for_apply_selection_choice')
-    if not applies:
-        raise AnalysisError('SupSelChoiceOptionMapping.resolve: apply call not found')
-    c = [x for x in ast.walk(applies[0].ast) if isinstance(x, ast.Call) and call_name(x) ==
-         'get_for_apply_selection_choice'][0]
-    opt = c.args[1]
-    sl = Slice(fn)
-    defs = [(nm, v, d) for nm, v, how, d in sl.origins(opt, applies[0]) if nm == norm(opt) and v is not None]
-    srcs = [norm(v) for _, v, _ in defs]
-    ok = len(defs) == 2 and any(s == 'mapping[None]' for s in srcs) and \
-        any(s.startswith('mapping_ctx[') and 'src_selected_opt_nodes' in s for s in srcs)
-    ctx.ob(rule, fkey(fn, rule, 'applied-option-from-mapping'), ok, fn.where,
-           'the applied option is mapping[None] or the mapping entry of the selected source option - never '
-           'anything else', '; '.join(srcs))
-    # mapping[None] only on the inactive side
-    none_defs = [d for _, v, d in defs if norm(v) == 'mapping[None]']
-    if none_defs:
-        guards.check_guarded(ctx, rule, fn, none_defs,
-                             lambda atom, truth: isinstance(atom, ast.Compare) and len(atom.ops) == 1 and
-                             ((isinstance(atom.ops[0], ast.NotIn) and truth is True) or
-                              (isinstance(atom.ops[0], ast.In) and truth is False)) and
-                             'src_originating_node' in norm(atom.left),
-                             set(), 'none-entry-only-if-inactive',
-                             'mapping[None] is used only when the originating node of the source choice is absent '
-                             'from the source architecture (choice inactive)')
-    sel_defs = [d for _, v, d in defs if 'mapping_ctx' in norm(v)]
-    if sel_defs:
-        t = [n for n in cfg.nodes if n.kind == 'test' and 'len(src_selected_opt_nodes)' in norm(n.ast)]
-        ok = False
-        if t:
-            try:
-                s = intcmp.value_set(t[0].ast, intcmp.is_len_of(lambda e: isinstance(e, ast.Name)),
-                                     domain=tuple(range(0, 5)))
-                ok = s == frozenset({0, 2, 3, 4}) and not cfg.can_reach(
-                    cfg.entry, sel_defs[0], blocked_edges={(t[0].id, m.id, lab) for m, lab in t[0].succ if lab == 'F'})
-            except intcmp.NotSimple:
-                ok = False
-        ctx.ob(rule, fkey(fn, rule, 'exactly-one-selected'), ok, fn.where,
-               'the mapping entry is used only when exactly one mapped source option is wired to the originating '
-               'node (otherwise an error is raised)', short(t[0].ast) if t else 'missing')
-    txt = FnText(ctx, fn)
-    ok = 'originating_out_nodes & set(mapping.keys())' in txt
-    ctx.ob(rule, fkey(fn, rule, 'selected-is-mapped-out-neighbour'), ok, fn.where,
-           'the selected source option is an out-neighbour of the originating node that is a key of the mapping', '')
-    # existence mapping
-    fe = ctx.fn(f'{SUP}:SupExistenceMapping.resolve')
-    cfge = build_cfg(fe)
+def _existence_scan_loop(ctx, rule, fe, cfge, loops):
     loops = [n for n in cfge.nodes if n.kind == 'for']
     ok = bool(loops) and norm(loops[0].ast.iter) == 'self._mapping.items()'
     ctx.ob(rule, fkey(fe, rule, 'declaration-order'), ok, fe.where,
@@ -186,6 +138,140 @@ def option_provenance(ctx, rule='A6'):
                              norm(atom.comparators[0]) == 'src_nodes', set(), 'hit-iff-node-exists',
                              'an option is taken from the scan only under the test that its source node exists in '
                              'the source architecture')
+    skip = [n for n in cfge.nodes if n.kind == 'test' and norm(n.ast) == 'src_node is None']
+    ok = bool(skip) and any(m.kind == 'stmt' and isinstance(m.ast, ast.Continue) for m, lab in skip[0].succ if lab == 'T')
+    ctx.ob(rule, fkey(fe, rule, 'none-key-skipped-in-scan'), ok, fe.where,
+           'the None key is skipped during the scan (it is the fallback, not a source node)', '')
+
+
+def _option_mapping_by_interpretation(ctx, rule, fn):
+    """SupSelChoiceOptionMapping.resolve interpreted abstractly (rules/absint.py): every returning path applies an
+    option; which option, and under which assumptions, is read off the terms - whether the code uses if/else or
+    guard clauses with early returns, list(...)[0] or tuple unpacking, .keys() or the mapping itself."""
+    from ..rules import absint
+    T = absint._t
+    helpers = {h.name: h for h in unit_functions(ctx.prog, fn)[1:]}
+    paths = absint.Interp(fn, helpers).run()
+    M = ('attr', ('name', 'self'), '_mapping')
+    ORIG = ('attr', ('name', 'self'), '_src_choice_originating_node')
+
+    def is_exists(t):
+        return isinstance(t, tuple) and t[0] == 'in' and isinstance(t[1], tuple) and t[1][0] == 'call' and \
+            t[1][1] == ('attr', ORIG, 'str_context')
+
+    def assumed_exists(q):
+        vals = [v for t, v in q.conds if is_exists(t)]
+        return vals[0] if vals else None
+    rets = [q for q in paths if q.outcome[0] == 'return']
+    if not rets:
+        raise AnalysisError('SupSelChoiceOptionMapping.resolve: no returning path')
+    ok_from = ok_none_side = ok_one = ok_sel = True
+    n_none = n_sel = 0
+    det = []
+    for q in rets:
+        t = T(q.outcome[1])
+        if not (isinstance(t, tuple) and t[0] == 'call' and t[1][0] == 'attr' and
+                t[1][2] == 'get_for_apply_selection_choice' and len(t[2]) >= 2):
+            raise AnalysisError(f'SupSelChoiceOptionMapping.resolve: unrecognised result {absint.fmt(t)[:100]}')
+        opt = t[2][1]
+        ex = assumed_exists(q)
+        det.append(f'{"active" if ex else "inactive" if ex is False else "?"}: {absint.fmt(opt)[:90]}')
+        if opt == ('index', M, None):
+            n_none += 1
+            ok_none_side &= ex is False
+            continue
+        # index(<dict comprehension over the mapping items: context string of the key -> value>, <context string of
+        # the selected source option>)
+        good = isinstance(opt, tuple) and opt[0] == 'index' and isinstance(opt[1], tuple) and opt[1][0] == 'dictcomp'
+        if good:
+            _, k, v, it = opt[1][:4]
+            el = ('elem', it)
+            good = it == ('call', ('attr', M, 'items'), ()) and v == el + (1,) and \
+                k == ('call', ('attr', el + (0,), 'str_context'), ())
+        key = opt[2] if good else None
+        good = good and isinstance(key, tuple) and key[0] == 'call' and key[1][0] == 'attr' and \
+            key[1][2] == 'str_context'
+        if not good:
+            ok_from = False
+            continue
+        n_sel += 1
+        ok_none_side &= ex is True
+        sel = key[1][1]
+        inter = absint.find(sel, lambda x: len(x) == 4 and x[0] == 'binop' and x[1] == 'BitAnd')
+        keys_forms = (('call', ('name', 'set'), (M,)), ('call', ('name', 'set'), (('call', ('attr', M, 'keys'), ()),)))
+        good_sel = False
+        for b_ in inter:
+            ops = [b_[2], b_[3]]
+            ks = [o for o in ops if o in keys_forms]
+            outs = [o for o in ops if isinstance(o, tuple) and o[0] == 'setcomp' and absint.contains(o, ORIG) and
+                    absint.find(o, lambda x: x[:1] == ('call',) and x[1] == ('name', 'iter_out_edges'))]
+            if ks and outs:
+                good_sel = True
+                # exactly one: the path assumes len(<that set>) == 1
+                one = [v_ for t_, v_ in q.conds if t_ == ('eq', ('call', ('name', 'len'), (b_,)), 1)]
+                ok_one &= bool(one) and one[0] is True
+        ok_sel &= good_sel
+    ctx.ob(rule, fkey(fn, rule, 'applied-option-from-mapping'), ok_from and n_none >= 1 and n_sel >= 1, fn.where,
+           'the applied option is mapping[None] or the mapping entry (looked up by context string) of the selected '
+           'source option - never anything else', '; '.join(det))
+    ctx.ob(rule, fkey(fn, rule, 'none-entry-only-if-inactive'), ok_none_side, fn.where,
+           'mapping[None] is used exactly when the originating node of the source choice is absent from the source '
+           'architecture (choice inactive), the selected option\'s entry exactly when it is present', '; '.join(det))
+    ctx.ob(rule, fkey(fn, rule, 'exactly-one-selected'), ok_one and n_sel >= 1, fn.where,
+           'the mapping entry is used only when exactly one mapped source option is wired to the originating '
+           'node (otherwise an error is raised)', '')
+    ctx.ob(rule, fkey(fn, rule, 'selected-is-mapped-out-neighbour'), ok_sel and n_sel >= 1, fn.where,
+           'the selected source option is an out-neighbour of the originating node that is a key of the mapping', '')
+    # every path that does not return raises the resolve error
+    others = [q for q in paths if q.outcome[0] != 'return']
+    ok = all(q.outcome[0] == 'raise' for q in others)
+    ctx.ob(rule, fkey(fn, rule, 'otherwise-error'), ok, fn.where,
+           'every other path (no None entry for an inactive choice, not exactly one selected option) raises', '')
+
+
+def option_provenance(ctx, rule='A6'):
+    # option mapping
+    fn = ctx.fn(f'{SUP}:SupSelChoiceOptionMapping.resolve')
+    _option_mapping_by_interpretation(ctx, rule, fn)
+    # existence mapping
+    fe = ctx.fn(f'{SUP}:SupExistenceMapping.resolve')
+    cfge = build_cfg(fe)
+    loops = [n for n in cfge.nodes if n.kind == 'for']
+    # the scan is either a loop with break or `next(<generator over the mapping items with the tests>, None)`
+    nexts = []
+    for c in calls(fe, 'next'):
+        if isinstance(c.func, ast.Name) and c.args:
+            g = c.args[0]
+            if isinstance(g, ast.Name):
+                ds = [a_.value for a_ in walk_fn(fe) if isinstance(a_, ast.Assign) and norm(a_.targets[0]) == g.id]
+                g = ds[0] if len(ds) == 1 else g
+            if isinstance(g, ast.GeneratorExp) and len(g.generators) == 1:
+                nexts.append((c, g))
+    if not loops and nexts:
+        c, g = nexts[0]
+        gen = g.generators[0]
+        ok = norm(gen.iter) == 'self._mapping.items()'
+        ctx.ob(rule, fkey(fe, rule, 'declaration-order'), ok, fe.where,
+               'the existence mapping is scanned in declaration order of the mapping', norm(gen.iter))
+        kv = [norm(e) for e in gen.target.elts] if isinstance(gen.target, ast.Tuple) else []
+        ok = len(kv) == 2 and norm(g.elt) == kv[1] and len(c.args) == 2 and \
+            isinstance(c.args[1], ast.Constant) and c.args[1].value is None
+        ctx.ob(rule, fkey(fe, rule, 'first-hit-wins'), ok, fe.where,
+               'the first existing source node decides: next() over the lazily filtered items, None when there is '
+               'no hit', short(c, 100))
+        conds = [a_ for i_ in gen.ifs for a_ in (i_.values if isinstance(i_, ast.BoolOp) and
+                                                 isinstance(i_.op, ast.And) else [i_])]
+        ex = [x for x in conds if isinstance(x, ast.Compare) and len(x.ops) == 1 and isinstance(x.ops[0], ast.In) and
+              kv and norm(x.left) == f'{kv[0]}.str_context()' and norm(x.comparators[0]) == 'src_nodes']
+        ctx.ob(rule, fkey(fe, rule, 'hit-iff-node-exists'), bool(ex), fe.where,
+               'an option is taken from the scan only under the test that its source node exists in the source '
+               'architecture', '; '.join(norm(x) for x in conds))
+        nn = [i for i, x in enumerate(conds) if kv and none_test(x) == ('not_none', kv[0])]
+        ok = bool(nn) and bool(ex) and nn[0] < conds.index(ex[0])
+        ctx.ob(rule, fkey(fe, rule, 'none-key-skipped-in-scan'), ok, fe.where,
+               'the None key is skipped during the scan (it is the fallback, not a source node)', '')
+    else:
+        _existence_scan_loop(ctx, rule, fe, cfge, loops)
     fb = [n for n in cfge.nodes if n.kind == 'stmt' and isinstance(n.ast, ast.Assign) and
           norm(n.ast.value) == 'self._mapping[None]']
     ok = bool(fb)
@@ -194,10 +280,6 @@ def option_provenance(ctx, rule='A6'):
                  for p, lab in fb[0].pred)
     ctx.ob(rule, fkey(fe, rule, 'none-entry-iff-no-hit'), ok, fe.where,
            'mapping[None] is used exactly when no source node of the mapping exists', '')
-    skip = [n for n in cfge.nodes if n.kind == 'test' and norm(n.ast) == 'src_node is None']
-    ok = bool(skip) and any(m.kind == 'stmt' and isinstance(m.ast, ast.Continue) for m, lab in skip[0].succ if lab == 'T')
-    ctx.ob(rule, fkey(fe, rule, 'none-key-skipped-in-scan'), ok, fe.where,
-           'the None key is skipped during the scan (it is the fallback, not a source node)', '')
     # initialisation completeness checks
     fi = ctx.fn(f'{SUP}:SupSelChoiceOptionMapping.initialize')
     ti = FnText(ctx, fi)
